@@ -60,6 +60,7 @@ theorem memberAdd_eq (c : Cfg) (s : State) (o : Obj) (hs : SortedById (s.getDb o
 structure RInv (Rm : Nat → Rel) (n : Nat) (base : Base) (fixed : Bool) (SO : List Obj) (s : State) : Prop where
   inv3 : Inv3 Rm n base (SO.map okey) s
   hinv : HInv fixed SO s
+  xinv : XInv s
   num : NumInv s
   looks : LooksOK Rm fixed SO s.log
 
@@ -114,6 +115,18 @@ theorem mem_addObject {s : State} {o : Obj} {k : Kind} {x : Elem} (hx : x ∈ (a
   · rename_i hk
     exact ⟨x, hx, rfl, rfl, rfl, by simp [hk]⟩
 
+theorem mem_addObject' {s : State} {o : Obj} {k : Kind} {y : Elem} (hy : y ∈ s.getDb k) :
+    ∃ x ∈ (addObject s o).getDb k, x.mid = y.mid ∧ x.num = y.num ∧ x.rpos = y.rpos ∧
+      x.h = if k = o.kind ∧ y.mid = o.id then s.stash.size + 1 else y.h := by
+  rw [(addObject_fields s o).2.2.2.2 k]
+  split
+  · rename_i hk
+    subst hk
+    refine ⟨_, List.mem_map.mpr ⟨y, hy, rfl⟩, ?_⟩
+    by_cases h : y.mid = o.id <;> simp [h]
+  · rename_i hk
+    exact ⟨y, hy, rfl, rfl, rfl, by simp [hk]⟩
+
 theorem liveRefs_addObject (s : State) (o : Obj) (k : Kind) (id : Int) :
     liveRefs ((addObject s o).getDb k) id = liveRefs (s.getDb k) id := by
   rw [(addObject_fields s o).2.2.2.2 k]
@@ -141,12 +154,23 @@ theorem skel_addObject (s : State) (o : Obj) (k : Kind) : skel ((addObject s o).
 
 /-- the state before the loop in `MembersDatabase::add` -/
 theorem linv_addObject {Rm : Nat → Rel} {n : Nat} {base : Base} {fixed : Bool} {SO : List Obj} {s : State}
-    (i : RInv Rm n base fixed SO s) (o : Obj) (hnew : (o.kind, o.id) ∉ SO.map okey) :
+    (i : RInv Rm n base fixed SO s) (o : Obj) (hnew : (o.kind, o.id) ∉ SO.map okey)
+    (hne : ∃ e ∈ s.getDb o.kind, e.mid = o.id) :
     LInv Rm n base fixed (o :: SO) (addObject s o) := by
   obtain ⟨hstash, hrdb, hlog, _, hdb⟩ := addObject_fields s o
   have i2 := i.inv3.inv2
   have hdead : ∀ p, deadB (addObject s o) p = deadB s p := by intro p; simp [deadB, hrdb]
-  refine ⟨⟨⟨?_, ?_, ?_, ?_⟩, ?_, ?_, ?_⟩, ?_, ⟨?_, ?_, ?_⟩, ?_, ?_⟩
+  -- the elements of the range of the arriving object are non-removed
+  have hrange : ∀ y ∈ s.getDb o.kind, y.mid = o.id → y.num.isSome = true := by
+    intro y hy hyid
+    rw [i.num o.kind y hy]
+    by_cases h0 : y.mid = 0
+    · simp [h0]
+    · have := not_dead_of_unseen i.inv3 o.kind (y.mid, y.rpos) (mem_base_of_mem i.inv3.skelEq o.kind y hy)
+        (by rw [hyid]; exact hnew)
+      simp at this
+      simp [this]
+  refine ⟨⟨⟨?_, ?_, ?_, ?_⟩, ?_, ?_, ?_⟩, ?_, ⟨?_, ?_, ?_⟩, ⟨?_, ?_⟩, ?_, ?_⟩
   · rw [hrdb]; exact i2.wf.rsize
   · rw [hstash]; simp; have := i2.wf.ssize; omega
   · intro k x hx
@@ -224,6 +248,30 @@ theorem linv_addObject {Rm : Nat → Rel} {n : Nat} {base : Base} {fixed : Bool}
       omega
     · rw [hh, if_neg hy0]
       exact i.hinv.gone hfix k y hy hzero
+  · -- uniform
+    intro k x hx x' hx' hmm
+    obtain ⟨y, hy, hmid, _, _, hh⟩ := mem_addObject hx
+    obtain ⟨y', hy', hmid', _, _, hh'⟩ := mem_addObject hx'
+    have hyy : y.mid = y'.mid := by rw [← hmid, ← hmid', hmm]
+    rw [hh, hh', hyy, i.xinv.uniform k y hy y' hy' hyy]
+  · -- nothing leaks
+    intro h' o' hg
+    rw [hstash] at hg
+    by_cases hh' : h' = s.stash.size + 1
+    · obtain ⟨y, hy, hyid⟩ := hne
+      obtain ⟨x, hx, _, hnum, _, hh⟩ := mem_addObject' (o := o) hy
+      refine ⟨o.kind, x, hx, ?_, by rw [hnum]; exact hrange y hy hyid⟩
+      rw [hh, if_pos ⟨rfl, hyid⟩, hh']
+    · rw [stashGet_push_old _ _ _ hh'] at hg
+      obtain ⟨k0, y, hy, hyh, hynum⟩ := i.xinv.noleak h' o' hg
+      obtain ⟨x, hx, _, hnum, _, hh⟩ := mem_addObject' (o := o) hy
+      refine ⟨k0, x, hx, ?_, by rw [hnum]; exact hynum⟩
+      rw [hh, if_neg, hyh]
+      rintro ⟨hk, hyid⟩
+      have h0 := i.hinv.fresh k0 y hy (by rw [hk, hyid]; exact hnew)
+      rw [h0] at hyh
+      rw [← hyh] at hg
+      simp [stashGet] at hg
   · -- removed flags
     intro k x hx
     obtain ⟨y, hy, hmid, hnum, hrp, _⟩ := mem_addObject hx
@@ -252,8 +300,8 @@ theorem rinv_memberAdd {Rm : Nat → Rel} {n : Nat} {base : Base} (cx : Ctx Rm n
     {s : State} (i : RInv Rm n base c.fixed SO s) (o : Obj) (hnew : (o.kind, o.id) ∉ SO.map okey) :
     RInv Rm n base c.fixed (o :: SO) (memberAdd c s o) ∧ (memberAdd c s o).chk = s.chk := by
   obtain ⟨i3, hchk⟩ := inv3_memberAdd i.inv3 c o hnew
-  suffices h : HInv c.fixed (o :: SO) (memberAdd c s o) ∧ NumInv (memberAdd c s o) ∧
-      LooksOK Rm c.fixed (o :: SO) (memberAdd c s o).log from ⟨⟨i3, h.1, h.2.1, h.2.2⟩, hchk⟩
+  suffices h : HInv c.fixed (o :: SO) (memberAdd c s o) ∧ XInv (memberAdd c s o) ∧ NumInv (memberAdd c s o) ∧
+      LooksOK Rm c.fixed (o :: SO) (memberAdd c s o).log from ⟨⟨i3, h.1, h.2.1, h.2.2.1, h.2.2.2⟩, hchk⟩
   have hs := i.inv3.sorted o.kind
   rw [memberAdd_eq c s o hs]
   split
@@ -270,13 +318,21 @@ theorem rinv_memberAdd {Rm : Nat → Rel} {n : Nat} {base : Base} (cx : Ctx Rm n
     have fp := possiblyFlush_frame c ({ s with log := Event.notIn o.kind o.id :: s.log } : State)
     have hdb : ∀ k, (State.possiblyFlush c ({ s with log := Event.notIn o.kind o.id :: s.log } : State)).getDb k = s.getDb k := by
       intro k; rw [g k]; cases k <;> rfl
-    refine ⟨hinv_congr (hinv_cons_untracked i.hinv o hun) st hdb, numInv_congr i.num fp.1 hdb, ?_⟩
+    refine ⟨hinv_congr (hinv_cons_untracked i.hinv o hun) st hdb, xinv_congr i.xinv st hdb,
+      numInv_congr i.num fp.1 hdb, ?_⟩
     rw [fp.2]
     intro e he
     rcases List.mem_cons.mp he with rfl | he
     · trivial
     · exact looksOK_mono i.looks (fun o' ho' => List.mem_cons_of_mem _ ho') e he
-  · have i1 := linv_addObject i o hnew
+  · rename_i hne
+    have hne' : ∃ e ∈ s.getDb o.kind, e.mid = o.id := by
+      cases hf : (s.getDb o.kind).filter (fun e => e.mid == o.id) with
+      | nil => rw [hf] at hne; simp at hne
+      | cons e0 rest =>
+        have hmem : e0 ∈ (s.getDb o.kind).filter (fun e => e.mid == o.id) := by rw [hf]; exact List.mem_cons_self ..
+        exact ⟨e0, (List.mem_filter.mp hmem).1, by simpa using (List.mem_filter.mp hmem).2⟩
+    have i1 := linv_addObject i o hnew hne'
     obtain ⟨_, hrdb, _, _, _⟩ := addObject_fields s o
     have hps_lt : ∀ q ∈ ((s.getDb o.kind).filter (fun e => e.mid == o.id)).map (·.rpos), q < n := by
       intro q hq
@@ -297,7 +353,7 @@ theorem rinv_memberAdd {Rm : Nat → Rel} {n : Nat} {base : Base} (cx : Ctx Rm n
     obtain ⟨_, g, _, st⟩ := i2.inv2.wf.possiblyFlush c
     have fp := possiblyFlush_frame c
       (completeLoop c (addObject s o) (((s.getDb o.kind).filter (fun e => e.mid == o.id)).map (·.rpos)))
-    refine ⟨hinv_congr i2.hinv st g, numInv_congr i2.num fp.1 g, ?_⟩
+    refine ⟨hinv_congr i2.hinv st g, xinv_congr i2.xinv st g, numInv_congr i2.num fp.1 g, ?_⟩
     rw [fp.2]; exact i2.looks
 
 /-! ### the whole second pass -/
@@ -322,6 +378,7 @@ theorem rinv_runOps {Rm : Nat → Rel} {n : Nat} {base : Base} (cx : Ctx Rm n ba
       simp only [runOps]
       have i' : RInv Rm n base c.fixed SO ({ s with log := Event.query k id (s.lookup k id) :: s.log } : State) := by
         refine ⟨?_, hinv_congr i.hinv rfl (fun k' => by cases k' <;> rfl),
+          xinv_congr i.xinv rfl (fun k' => by cases k' <;> rfl),
           numInv_congr i.num rfl (fun k' => by cases k' <;> rfl), ?_⟩
         · refine inv3_congr i.inv3 rfl rfl (fun k' => by cases k' <;> rfl) (Or.inr ⟨k, id, _, rfl⟩)
             (fun p => by simp [firedCount]) ?_
@@ -351,7 +408,8 @@ theorem rinv_runOps {Rm : Nat → Rel} {n : Nat} {base : Base} (cx : Ctx Rm n ba
       have i' : RInv Rm n base c.fixed SO (s.flushOutput c) :=
         ⟨inv3_congr i.inv3 hfl.1 hfl.2.1 hfl.2.2.1 (Or.inl (by rw [hfl.2.2.2.1])) (fun p => by rw [hfl.2.2.2.1])
             (fun h => by rw [hfl.2.2.2.1]; exact h),
-          hinv_congr i.hinv hfl.1 hfl.2.2.1, numInv_congr i.num hfl.2.1 hfl.2.2.1, by rw [hfl.2.2.2.1]; exact i.looks⟩
+          hinv_congr i.hinv hfl.1 hfl.2.2.1, xinv_congr i.xinv hfl.1 hfl.2.2.1, numInv_congr i.num hfl.2.1 hfl.2.2.1,
+          by rw [hfl.2.2.2.1]; exact i.looks⟩
       exact ih i' (by rw [hfl.2.2.2.2]; exact hchk) hnd hdisj
     | obj o =>
       simp only [runOps]
@@ -368,6 +426,7 @@ theorem rinv_runOps {Rm : Nat → Rel} {n : Nat} {base : Base} (cx : Ctx Rm n ba
         have i0 : RInv Rm n base c.fixed SO ({ s with chk := chk' } : State) :=
           ⟨inv3_congr i.inv3 rfl rfl (fun k' => by cases k' <;> rfl) (Or.inl rfl) (fun _ => rfl) (fun h => h),
             hinv_congr i.hinv rfl (fun k' => by cases k' <;> rfl),
+            xinv_congr i.xinv rfl (fun k' => by cases k' <;> rfl),
             numInv_congr i.num rfl (fun k' => by cases k' <;> rfl), i.looks⟩
         have hnew : (o.kind, o.id) ∉ SO.map okey := hdisj _ (List.mem_cons_self ..)
         obtain ⟨i1, c1⟩ := rinv_memberAdd cx c i0 o hnew
